@@ -51,6 +51,10 @@ CLASSES: List[Tuple[int, str, List[str], str, dict]] = [
     (44, "datetime", ["date"], "R", {"real": datetime.date}),       # base of datetime.datetime; registered BEFORE it
     (41, "datetime", ["datetime"], "R", {"real": datetime.datetime}),
     (42, "fractions", ["Fraction"], "R", {"real": fractions.Fraction}),
+    (47, "builtins", ["complex"], "R", {"real": complex}),          # registered types that live in module builtins
+    (48, "builtins", ["bytes"], "R", {"real": bytes}),
+    (49, "builtins", ["range"], "R", {"real": range}),
+    (53, "builtins", ["frozenset"], "R", {"real": frozenset}),
     (43, "c18w", ["RegPoint"], "R", {}),
     (45, "c18w", ["RegBase"], "R", {}),                             # harness pair in a subclass relationship,
     (46, "c18w", ["RegDerived"], "R", {"base": 45}),                # registered base first, each with its own (de)serialiser
@@ -164,6 +168,10 @@ def world() -> Dict[str, Any]:
     RD.__init__ = lambda self, x=0, y=0: (setattr(self, "x", x), setattr(self, "y", y)) and None
     register(RB, lambda o: [o.x], lambda v: RB(v[0]))                      # base first ...
     register(RD, lambda o: [o.x, o.y], lambda v: RD(v[0], v[1]))           # ... then the derived type
+    register(complex, lambda o: [int(o.real), int(o.imag)], lambda v: complex(v[0], v[1]))
+    register(bytes, lambda o: list(o), lambda v: bytes(v))
+    register(range, lambda o: [o.start, o.stop, o.step], lambda v: range(v[0], v[1], v[2]))
+    register(frozenset, lambda o: sorted(o), lambda v: frozenset(v))
     register(datetime.date, lambda o: [o.year, o.month, o.day], lambda v: datetime.date(v[0], v[1], v[2]))   # base first
     register(datetime.datetime, lambda o: o.isoformat(), datetime.datetime.fromisoformat)
     register(fractions.Fraction, lambda o: [o.numerator, o.denominator], lambda v: fractions.Fraction(v[0], v[1]))
@@ -260,6 +268,14 @@ def build(d):
         return fractions.Fraction(own[0], own[1])
     if cid == 43:
         return c(own[0], own[1])
+    if cid == 47:
+        return complex(own[0], own[1])
+    if cid == 48:
+        return bytes(own)
+    if cid == 49:
+        return range(own[0], own[1], own[2])
+    if cid == 53:
+        return frozenset(own)
     if cid == 44:
         return datetime.date(own[0], own[1], own[2])
     if cid == 45:
@@ -313,6 +329,14 @@ def enc(r):
         return [6, cid, enc_jv([r.numerator, r.denominator]), []]
     if cid == 43:
         return [6, cid, enc_jv([r.x, r.y]), []]
+    if cid == 47:
+        return [6, cid, enc_jv([int(r.real), int(r.imag)] if r.real == int(r.real) and r.imag == int(r.imag) else [r.real, r.imag]), []]
+    if cid == 48:
+        return [6, cid, enc_jv(list(r)), []]
+    if cid == 49:
+        return [6, cid, enc_jv([r.start, r.stop, r.step]), []]
+    if cid == 53:
+        return [6, cid, enc_jv(sorted(r)), []]
     if cid == 44:
         return [6, cid, enc_jv([r.year, r.month, r.day]), []]
     if cid == 45:
@@ -423,6 +447,14 @@ def gen_reg(rng) -> list:
         return ["o", 41, rng.choice(DATES), []]
     if cid == 42:
         return ["o", 42, rng.choice(FRACS), []]
+    if cid == 47:
+        return ["o", 47, [rng.randint(-9, 9), rng.randint(-9, 9)], []]
+    if cid == 48:
+        return ["o", 48, [rng.randint(0, 255) for _ in range(rng.randint(0, 4))], []]
+    if cid == 49:
+        return ["o", 49, [rng.randint(-5, 5), rng.randint(-5, 20), rng.choice([1, 2, -1, 3])], []]
+    if cid == 53:
+        return ["o", 53, sorted({rng.randint(-9, 9) for _ in range(rng.randint(0, 4))}), []]
     if cid == 44:
         return ["o", 44, rng.choice(DAYS), []]
     if cid == 45:
@@ -513,6 +545,9 @@ def fixed_cases() -> List[list]:
     for cid in SER_OK:                      # two and three different instances of one class, as siblings and as parent/child
         out.append(["l", [["o", cid, "small", []], ["o", cid, "big", []]]])
         out.append(["o", cid, 1, [["o", cid, 2, []], ["o", cid, 3, [["i", 4]]]]])
+    out += [["o", 47, [1, -2], []], ["o", 47, [0, 0], []], ["o", 48, [], []], ["o", 48, [0, 255, 10], []], ["o", 49, [0, 5, 1], []],
+            ["o", 49, [3, -7, -2], []], ["o", 53, [], []], ["o", 53, [-1, 2, 7], []],
+            ["l", [["o", 47, [3, 4], []], ["l", [["o", 48, [1], []]]], ["o", 13, "k", [["o", 49, [1, 9, 2], []], ["o", 53, [5], []]]]]]]
     out += [["o", 44, d, []] for d in DAYS] + [["o", 45, [3], []], ["o", 46, [3, 4], []]]
     out.append(["l", [["o", 44, DAYS[0], []], ["o", 41, DATES[1], []], ["o", 45, [1], []], ["o", 46, [1, 2], []], ["o", 10, 0, [["o", 41, DATES[0], []], ["o", 46, [5, 6], []]]]]])
     # a chain through every class, lists in between
@@ -610,7 +645,7 @@ def run(tier: str, seed: int, replay=None) -> int:
                   "path (a module 'm.Outer' next to class Outer of module m would be imported in place of the class)",
                   "tuples, sets, dicts and NaN are outside the statement's value grammar and are not generated"]
     rep.rule = ("fixed edge list (every leaf kind incl. 2**70, +-inf, -0.0, lone surrogates, NUL, empty and 4-deep lists, every class of 3 subclass chains "
-                "of depth 1-4 in both styles of extending super().to_json() (copy / in-place), 7 registered third-party types incl. two base/derived "
+                "of depth 1-4 in both styles of extending super().to_json() (copy / in-place), 11 registered third-party types (4 of them living in module builtins: complex, bytes, range, frozenset) incl. two base/derived "
                 "pairs registered base-first, 2-4 different instances of one class as siblings / kids / parent-child in every 5th random value) + seeded grammar-directed random values (list depth <= 4, object depth <= 4, ~4% with a "
                 "function-local serialiser class = known-finding class K_local; classes nested in classes are ordinary members of the class pool); thorough adds all values of <= 4 nodes over a 7-leaf alphabet; "
                 "non-trivial = contains at least one list or object; distinct = distinct value")
